@@ -299,8 +299,8 @@ PROPS['C12'] = dict(
           '(raw, valid, pentagon, pentagon descendant, bit flips, wrong mode/reserved bits, planted 7, deleted sub-sequence, edge/vertex shaped, neighbours) '
           'followed by up to 12 calls over 60 API functions with class-decoded ints/doubles/polygons/cell sets and exactly-sized heap buffers; '
           'non-trivial = a program in which at least one API call was executed and judged; distinct by the sequence of (function, return code, argument classes)'),
-    quick=dict(runs=2_400_000, max_total_time=80),
-    thorough=dict(runs=60_000_000, max_total_time=1500),
+    quick=dict(runs=2_400_000, max_total_time=70, enum_payloads=48),
+    thorough=dict(runs=60_000_000, max_total_time=1500, enum_payloads=1024),
     level_text=('libFuzzer campaign (16 processes, shared corpus, committed seed corpus) over byte strings decoded into short API programs; the library is built with '
                 'ASan+UBSan and without NDEBUG, every output buffer is a heap block of exactly the documented size; the target itself checks that every return '
                 'code is one of the 16 documented ones, that out-of-domain scalar arguments yield their documented code (table restricted to codes named in the '
